@@ -222,6 +222,24 @@ func genHasIndex(r *core.Rand) []cty.Value {
 	return []cty.Value{coll, key}
 }
 
+// genIndex is genHasIndex biased towards keys that are present (index fails otherwise).
+func genIndex(r *core.Rand) []cty.Value {
+	a := genHasIndex(r)
+	if r.Chance(1, 2) && !a[0].IsNull() {
+		switch kindOf(a[0].Type()) {
+		case "list", "tuple":
+			if n := a[0].LengthInt(); n > 0 {
+				a[1] = cty.NumberIntVal(int64(r.Intn(n)))
+			}
+		case "map":
+			if k, ok := existingKey(r, a[0]); ok {
+				a[1] = cty.StringVal(k)
+			}
+		}
+	}
+	return a
+}
+
 func genElement(r *core.Rand) []cty.Value {
 	s := seqVal(r, 5)
 	return []cty.Value{s, idxNum(r, s.LengthInt())}
@@ -327,6 +345,21 @@ func genFlatten(r *core.Rand) []cty.Value {
 func genSlice(r *core.Rand) []cty.Value {
 	s := seqVal(r, 6)
 	n := s.LengthInt()
+	if r.Chance(11, 20) {
+		// inside the domain: 0 <= start <= end <= len (boundaries included), sometimes at another precision
+		a, b := r.Intn(n+1), r.Intn(n+1)
+		if a > b {
+			a, b = b, a
+		}
+		av, bv := cty.NumberIntVal(int64(a)), cty.NumberIntVal(int64(b))
+		if r.Chance(1, 8) {
+			av = cty.NumberFloatVal(float64(a))
+		}
+		if r.Chance(1, 8) {
+			bv = cty.MustParseNumberVal(big.NewInt(int64(b)).String())
+		}
+		return []cty.Value{s, av, bv}
+	}
 	a, b := idxNum(r, n), idxNum(r, n)
 	if r.Chance(1, 2) {
 		// bias towards start <= end
@@ -341,6 +374,9 @@ func genSlice(r *core.Rand) []cty.Value {
 
 func genChunklist(r *core.Rand) []cty.Value {
 	l := val(r, cty.List(elemTy(r)), 7)
+	if r.Chance(2, 5) {
+		return []cty.Value{l, cty.NumberIntVal(int64(r.Intn(l.LengthInt() + 3)))}
+	}
 	return []cty.Value{l, idxNum(r, l.LengthInt())}
 }
 
